@@ -33,6 +33,12 @@ CHECKS = {
  "C15": dict(engine="worker", technique="TLC model checking of ActionWorker.tla (ErrorAtMostOnce, ErrorReported, CriticalEndsMain) + TLC trace validation with error-handler calls judged",
    text="TLC checks that each filter error reaches the error hook exactly once, only errors do, the worker goes on, and the main task ends exactly when the handler elevates or raises a critical error; real runs with filter errors among ordinary events, error bursts larger than the error queue (capacity 1, 2, 64) and error handlers that ignore / elevate / raise critical must be behaviours of the spec with every error-handler call judged (WorkerTrace, CheckErrors = TRUE), and a later ordinary event must still be delivered.",
    ref="4.5, 6 C15", note="Trusted: TLC; tokio's paused clock. Covered here: errors raised while filtering. Watch/unwatch failures are covered by C13's machinery; watcher-callback errors (queue overflow) are not injected by this check."),
+ "C08": dict(engine="worker", technique="TLC model checking of JobTask.tla under a quit (MC_JobQuit: QuitBounded, QuitClean, QuitEnds) + TLC trace monitor (QuitMon.tla) over real Watchexec runs with supervised jobs",
+   text="MC_JobQuit adds the graceful quit of the action worker (stop_with_signal + delete, back to back) to the JobTask model and TLC checks, for every job state reachable by two or three earlier controls (never started, running, finished, armed stop or restart timer, queued controls, deleted, handles dropped), that the job task has ended no later than the remainder of the armed timer + the graces of queued graceful controls + the quit's own grace, with nothing left running; real Watchexec instances whose handler creates 1-3 jobs in ten states (simulated children that ignore / obey the signal / exit by themselves) and then quits in either manner are recorded in virtual time, and QuitMon requires the quit to be performed in the manner asked, the main task to end in the same instant (abort) or within the bound (graceful), and every spawned child to have been reaped or dropped.",
+   ref="4.5, 6 C08", note="Trusted: TLC; tokio's paused clock; the simulated child (a dropped child counts as killed: kill-on-drop and process-group semantics of process-wrap and of the kernel are not re-verified here). The CLI signal path (interrupt/terminate leading to this shutdown) is exercised by C05's driver, not here."),
+ "C13": dict(engine="fs", technique="TLC model checking of FsWorker.tla (ConvergedWhenIdle, BeliefMatches, NothingLost) + TLC trace validation of the real fs worker against a recording notify watcher",
+   text="FsWorker.tla models the worker loop step by step (wait on the change signal, read the path set, read the kind and recreate the watcher, diff, one watch/unwatch call at a time) with the environment free to change the path set, the kind or anything else between any two steps; TLC checks that whenever the worker is waiting with nothing unseen the watcher has the configured kind and exactly the configured paths, that an empty set releases it and that no change is lost; the real worker runs against a fake notify::Watcher (installed through the cfg(watchexec_verif) factory) that records every call, fails on request and applies scripted configuration changes inside its own create/watch/unwatch calls; every run must be a behaviour of the spec, the worker must be quiet only when nothing is pending, each failed call must produce exactly one runtime error, and at the end the fake's registered set and kind must equal the configuration.",
+   ref="4.4, 6 C13", note="Trusted: TLC; the fake watcher stands for notify (what inotify would report is not judged). Two recursion modes of one path combined with a failing unwatch of it are outside the modelled universe. Changes from inside action/error handlers are the same Config calls as the ones scripted here; the handler itself is not in the loop of this driver."),
  "C03": dict(engine="pure", technique="TLA+ reference semantics (IgnoreScope.tla) with scoping laws checked by TLC; enumerated cases replayed on real trees through IgnoreFilter / IgnoreFilterer",
    text="IgnoreScope.tla defines git-style evaluation over a tree with prefix-related sibling directories (test/tests, origin/originx): nearest directory first, last matching line wins, path before parents, then globals; TLC checks Scoping, NegationLocal and OrderIrrelevant on it and enumerates ignore-file sets (all single files, all pairs of one-line files, seeded samples of 2-3 files) with the expected verdict of 20 probes each; the real filter is built five ways (new, new again, new with a permuted list, new+add_file, empty+add_file) and must give the expected verdict through check_event and check_dir every time.",
    ref="6 C03", note="Trusted: TLC; the glob semantics of the reference cover the 14 patterns of the table. Skipped as unspecified: a directory vs an ignore file inside it, re-inclusion below an excluded parent, anchored global patterns seen from outside the origin."),
@@ -71,8 +77,10 @@ def main():
                         source_commits=src, add_only=True),
              engines=[dict(name="job", path="tools/jobcheck.py", serves_properties=["C04", "C06", "C07", "C09", "C10"],
                            kind_free_text="JobTask.tla model checking + job_driver (virtual time, simulated child) + TLC trace validation / monitors"),
-                      dict(name="worker", path="tools/workcheck.py", serves_properties=["C01", "C02", "C15"],
+                      dict(name="worker", path="tools/workcheck.py", serves_properties=["C01", "C02", "C08", "C15"],
                            kind_free_text="ActionWorker.tla model checking + worker_driver (real Watchexec in virtual time) + TLC trace validation (WorkerTrace.tla, timed / untimed / errors judged)"),
+                      dict(name="fs", path="tools/fscheck.py", serves_properties=["C13"],
+                           kind_free_text="FsWorker.tla model checking + fs_driver (real fs worker, fake notify watcher via factory hook) + TLC trace validation (FsTrace.tla)"),
                       dict(name="pure", path="tools/purecheck.py", serves_properties=[p for p in CHECKS if CHECKS[p]["engine"] == "pure"],
                            kind_free_text="decision specs in spec/pure: TLC checks the laws and enumerates (case, expected answer); pure_runner replays every case on the real crates")],
              checks=checks,
